@@ -35,6 +35,7 @@ enum {
 	FS_PTHREAD_CREATE,	/* pthread_create: EAGAIN */
 	FS_INOTIFY_INIT,	/* inotify_init: EMFILE */
 	FS_INOTIFY_ADD,		/* inotify_add_watch: ENOSPC / ENOENT */
+	FS_LIBREAD,		/* read by the library on an eventfd / pipe / inotify descriptor of its own: EINTR / EAGAIN */
 	FS_MAX
 };
 
@@ -162,6 +163,7 @@ void	simk_fd_mark(int fd, int flags);	/* harness: enable short io / faults on fd
 /* signals (simulated) */
 int	simk_raise_process(int sig);		/* process-directed */
 int	simk_raise_thread(int tid, int sig);	/* thread-directed */
+long	simk_thread_steps(int tid);	/* scheduling steps this thread has taken */
 int64_t	simk_next_deadline(void);	/* earliest pending deadline of anything simulated, -1 if none */
 void	simk_fault_once(int site, int err);	/* arm a fault for the calling thread's next call at the site */
 int	simk_fault_once_pending(int site);	/* disarm; returns the errno if it had not fired */
